@@ -150,9 +150,12 @@ def extract_cleanup_steps(repo: Path):
                 out.append("dropExternal")
             elif isinstance(st, ast.Assign) and ast.unparse(st.targets[0]).startswith("self.all_procs"):
                 continue
-            elif isinstance(st, ast.For) and ast.unparse(st.iter) == "self.interfaces" and all(
-                    isinstance(n, (ast.Assign, ast.If, ast.For)) for n in st.body) and "self.variables" not in text \
-                    and "self.args" not in text and "retvar" not in text and "attr_dict" not in text:
+            elif isinstance(st, (ast.For, ast.If, ast.Assign)) and "self.variables" not in text \
+                    and "self.args" not in text and "retvar" not in text and "attr_dict" not in text \
+                    and "attribs" not in text and "process_attribs" not in text and "_cleanup" not in text:
+                # a step that touches neither the variables, the arguments, the result nor the recorded
+                # attribute statements (e.g. the procedure table, a constructor's accessibility) is not a
+                # step of the attribute attachment
                 continue
             else:
                 raise RuntimeError(f"{cname}._cleanup: unrecognised statement {text[:90]!r}")
